@@ -317,6 +317,26 @@ def run_unit(unit, drv, res, seed, tier):
                 items.append((wrap(esc, q), 'reject', 'malformed escape'))
                 items.append((wrap('y' + esc + 'z', q), 'reject', 'malformed escape'))
                 items.append((wrap(esc, q, 'b'), 'reject', 'malformed escape in a bytes literal'))
+                items.append((wrap('yy' + esc + 'z', q, 'B'), 'reject', 'malformed escape in a bytes literal'))
+            for esc in ['\\u0041', '\\U00000041', '\\u00e9', '\\ud800']:
+                # code-point escapes have no meaning in a bytes literal
+                items.append((wrap(esc, q, 'b'), 'reject', 'code-point escape in a bytes literal'))
+                items.append((wrap('ab' + esc, q, 'b'), 'reject', 'code-point escape in a bytes literal'))
+                items.append((wrap('\\x41\\101' + esc + 'z', q, 'B'), 'reject', 'code-point escape in a bytes literal'))
+        # a rejected literal leaves nothing behind: after every rejected program, well-formed literals of every
+        # kind (same driver thread) still denote exactly what they spell
+        probes = [("b'xyz'", ('ok', Y(b'xyz'))), ("'xyz'", ('ok', S('xyz'))), ('b"\\x41\\n"', ('ok', Y(b'A\n'))), ("r'\\n'", ('ok', S('\\n'))),
+                  ("br'q\\x'", ('ok', Y(b'q\\x'))), ("'''t\\u00e9'''", ('ok', S('t\u00e9'))), ("b''", ('ok', Y(b''))), ("''", ('ok', S(''))),
+                  ("[b'k', 'k', b'\\101']", ('ok', ('l', [Y(b'k'), S('k'), Y(b'A')])))]
+        mixed = []
+        for i, it in enumerate(items):
+            mixed.append(it)
+            pr = probes[i % len(probes)]
+            mixed.append((pr[0], pr[1], 'well-formed literal after a rejected one'))
+            if i % 3 == 0:
+                pr = probes[(i // 3 + 4) % len(probes)]
+                mixed.append((pr[0], pr[1], 'well-formed literal after a rejected one'))
+        items = mixed
         res.exhaustive_done['malformed-escapes'] = True
     elif kind == 'pairs':
         # two adjacent escapes: each denotes its own code point; a surrogate stays invalid next to another one
